@@ -255,6 +255,64 @@ pub fn run(r: &Runner) {
             buf[pos] = val;
             check(r, ctx, l, &scanner_rec(backend, class, *cell, buf, 0, Placement::End))
         });
+        // page-straddling placements: a 4 KiB page boundary falls k bytes after the start of the
+        // buffer, for every k (a tail path that treats "the rest of this page" specially must
+        // still stop at the first out-of-class byte, or at the end, wherever the boundary is)
+        {
+            let maxl = 72u64;
+            let tri: Vec<u64> = (0..=maxl + 1).scan(0u64, |a, l| { let v = *a; *a += l + 1; Some(v) }).collect(); // prefix sums of (len+1)
+            let total = tri[maxl as usize + 1] * 3 * pcombos.len() as u64;
+            r.par_enum(&format!("{}: every length 0..=72 × every page-boundary offset 0..=len × {{all in class, offender in the last 8 bytes, offender right after the boundary}}, buffer straddling an interior page boundary", label), total, |ctx, l, idx| {
+                let mut x = idx;
+                let var = x % 3;
+                x /= 3;
+                let (backend, class) = pcombos[(x % pcombos.len() as u64) as usize];
+                x /= pcombos.len() as u64;
+                let len = tri.partition_point(|&o| o <= x) - 1;
+                let k = (x - tri[len]) as usize;
+                let mut rng = Lcg(mix(idx));
+                let mut buf: Vec<u8> = (0..len).map(|i| filler(class, 1 + (idx % 2), i, &mut rng)).collect();
+                let bad = [0x00u8, 0x7f, b' ', 0x1f][(idx % 4) as usize];
+                let bad = if class == CL_VALUE && bad == b' ' { 0x0a } else { bad };
+                match var {
+                    1 if len > 0 => {
+                        let p = len - 1 - (mix(idx) as usize % len.min(8));
+                        buf[p] = bad;
+                    }
+                    2 if k < len => buf[k] = bad,
+                    _ => {}
+                }
+                check(r, ctx, l, &scanner_rec(backend, class, *cell, buf, 0, Placement::Cross(k.min(127) as u8)))
+            });
+        }
+        // periodic fillers: the buffer repeats one 8-byte word (with '_', '~', digits), every
+        // position × 256 values — a scanner that remembers or compares whole words sees the
+        // offender next to an identical clean word
+        {
+            const WORDS: [&[u8; 8]; 3] = [b"session_", b"aB3-_.~z", b"0a_Z9|x!"];
+            let lens: [usize; 6] = [16, 24, 33, 40, 64, 100];
+            let per: u64 = lens.iter().map(|l| *l as u64).sum();
+            let total = per * 256 * WORDS.len() as u64 * pcombos.len() as u64;
+            r.par_enum(&format!("{}: buffers repeating one 8-byte word (3 words) at lengths {{16,24,33,40,64,100}} × every position × 256 values", label), total, |ctx, l, idx| {
+                let mut x = idx;
+                let val = (x % 256) as u8;
+                x /= 256;
+                let w = WORDS[(x % WORDS.len() as u64) as usize];
+                x /= WORDS.len() as u64;
+                let (backend, class) = pcombos[(x % pcombos.len() as u64) as usize];
+                x /= pcombos.len() as u64;
+                let mut li = 0;
+                while x >= lens[li] as u64 {
+                    x -= lens[li] as u64;
+                    li += 1;
+                }
+                let len = lens[li];
+                let pos = x as usize;
+                let mut buf: Vec<u8> = (0..len).map(|i| w[i % 8]).collect();
+                buf[pos] = val;
+                check(r, ctx, l, &scanner_rec(backend, class, *cell, buf, 0, Placement::End))
+            });
+        }
         // long buffers (unrolled multi-block loops): every length 101..=300 (quick: step 3 plus
         // all multiples of 16 +-1) × every position × 40 boundary values × 2 fillers
         let long_lens: Vec<usize> = (101..=300usize).filter(|l| !r.quick() || l % 3 == 0 || l % 16 <= 1 || l % 16 == 15).collect();
